@@ -99,10 +99,62 @@ func stepProgs(st []histStep) []int {
 
 func init() { registerKind("history", func() Case { return &HistoryCase{} }) }
 
-func buildC10Pool(env *Env, r *Rand, n int) []poolProg {
+// siblingGroups: tiny programs that differ in ONE encoding-relevant coordinate (immediate class, direct versus
+// indirect address, mode) while sharing mnemonic and register: a process-wide cache keyed too coarsely replays
+// the encoding of whichever sibling came first
+func siblingGroups(r *Rand) [][]string {
+	var groups [][]string
+	imms := []string{"1", "100", "-100", "-256", "0x1234", "-129", "127", "128", "0xffff", "-32768", "255"}
+	for g := 0; g < 4; g++ {
+		mn := Pick(r, poolALU)
+		mode := Pick(r, []int{16, 32})
+		reg := Pick(r, []string{"CX", "DX", "BX", "SI", "DL", "BH"})
+		if mode == 32 {
+			reg = Pick(r, []string{"ECX", "EBX", "ESI", "CX", "DL"})
+		}
+		pre := ""
+		if mode == 32 {
+			pre = "[BITS 32]\n"
+		}
+		var grp []string
+		for _, v := range imms {
+			if (reg == "DL" || reg == "BH") && (v == "0x1234" || v == "-256" || v == "0xffff" || v == "-32768" || v == "-129") {
+				continue
+			}
+			grp = append(grp, fmt.Sprintf("%s\t%s %s,%s\n\tNOP\n", pre, mn, reg, v))
+		}
+		groups = append(groups, grp)
+	}
+	for _, mode := range []int{16, 32} {
+		pre := ""
+		acc, base := "AX", "BX"
+		if mode == 32 {
+			pre, acc, base = "[BITS 32]\n", "EAX", "EBX"
+		}
+		var grp []string
+		for _, st := range []string{"MOV " + acc + ",[" + base + "]", "MOV " + acc + ",[0x1234]", "MOV [" + base + "]," + acc, "MOV [0x1234]," + acc, "MOV AL,[" + base + "]", "MOV AL,[0x0ff0]",
+			"MOV CL,[0x0ff0]", "MOV CL,[" + base + "+4]", "ADD " + acc + ",[0x1234]", "ADD " + acc + ",[" + base + "+0x1234]", "MOV [0x0ff2],DX", "MOV [" + base + "+2],DX"} {
+			grp = append(grp, pre+"\t"+st+"\nl:\n\tJMP l\n")
+		}
+		groups = append(groups, grp)
+	}
+	return groups
+}
+
+func buildC10Pool(env *Env, r *Rand, n int) ([]poolProg, [][]int) {
 	reserved := reservedPrefixes(env.Repo)
 	var pool []poolProg
 	add := func(kind, src string) { pool = append(pool, poolProg{Src: []byte(src), Kind: kind}) }
+	var sib [][]int
+	for gi, grp := range siblingGroups(r) {
+		var idx []int
+		for _, src := range grp {
+			idx = append(idx, len(pool))
+			add(fmt.Sprintf("sibling-group%d", gi), src)
+		}
+		sib = append(sib, idx)
+	}
+	n += len(pool)
 	for i := 0; len(pool) < n; i++ {
 		switch i % 8 {
 		case 0, 1:
@@ -142,7 +194,7 @@ func buildC10Pool(env *Env, r *Rand, n int) []poolProg {
 			add("refused", Pick(r, []string{"\tMOV AX,\n", "\tFOO BAR\n", "\tADC AX,BX\n\tDB 1\n", "\tMOV AX,[nolabel]\n\tDB 2\n", "\tJMP\n", "\tDW \"str\"\n\tDB 3\n", "\tLGDT [nowhere]\n\tDB 4\n"}))
 		}
 	}
-	return pool
+	return pool, sib
 }
 
 func init() {
@@ -153,7 +205,7 @@ func init() {
 		if env.Tier == "thorough" {
 			npool, nhist, steps = 300, 64, 5000
 		}
-		pool := buildC10Pool(env, r, npool)
+		pool, sib := buildC10Pool(env, r, npool)
 		// references: every program in a fresh process, twice, with different environment, cwd, output name and junk in the destination
 		var jobs []CLIJob
 		for i := range pool {
@@ -190,6 +242,10 @@ func init() {
 			c := &HistoryCase{Pool: pool}
 			// each history concentrates on a few programs so that repetitions and re-executions are frequent
 			focus := Sample(r, seqInts(len(pool)), 6+h%20)
+			if h%3 == 0 && len(sib) > 0 {
+				// a history that stays inside one sibling group: every order of its members occurs
+				focus = sib[(h/3)%len(sib)]
+			}
 			var last = map[int]bool{}
 			for s := 0; s < steps; s++ {
 				p := Pick(r, focus)
